@@ -1,7 +1,60 @@
 import Driver.Wire
-/-! Driver commands of the Eval area (filled in by the area's owner). -/
-namespace Marwood.Driver.Eval
+import Driver.Reader
+import Marwood.Spec.Eval
+/-! Driver commands of the Eval area (C01).
 
-def handle (_cmd : String) (_args : List String) : Option String := none
+`eval-session <fuel> F:<features> <form-text>…` — the second argument is the generator's feature tag
+(ignored here, histogram material for the plugin); every argument after it is the wire text of one top-level
+form; the forms are read with the reader model (`parseText`) and evaluated by `Spec.Eval` in a fresh
+instance. Answer: the per-form results `ok <datum>` / `err <class>` / `timeout` joined by ` | `, then
+` || ` and the output log (`d:<datum>` for display, `w:<datum>` for write). -/
+namespace Marwood.Driver.Eval
+open Marwood Marwood.Wire Marwood.Spec.Eval
+
+/-- error classes at the granularity R7RS gives them: an unbound variable, a non-procedure in operator
+    position, an error raised by `error`, and "it is an error" for everything else (arity, domain,
+    index, syntax — the implementation spreads these over several classes: `(if 1 2 3 4)` is an arity
+    error, `(quote)` a type error, `(+ 1 "a")` a syntax error) -/
+def errName : ErrClass → String
+  | .unbound => "unbound" | .notProcedure => "not-procedure" | .user => "user" | .internal => "internal"
+  | .arity | .type | .syntax | .range => "wrong"
+
+def showRes : FormRes → String
+  | .ok d => "ok " ++ encDatum d
+  | .err e => "err " ++ errName e
+  | .timeout => "timeout"
+
+/-- the grammar has no inexact numbers: no spelling is a double (a spelling that is one reads as a
+    symbol here and the comparison with the implementation fails loudly) -/
+def noFloats : FloatOps where
+  parseF64 _ _ := none
+  bigRatToF64 _ _ := ⟨0⟩
+  toExact _ := none
+  toInexact _ := ⟨0⟩
+  fmtExp _ := []
+  fmtFix1 _ := []
+  fmtShort _ := []
+  fmtRadix _ _ := []
+
+def readForm (w : String) : Option Datum := do
+  let t ← decText w
+  match parseText noFloats t with
+  | .ok (d, none) => some d
+  | _ => none
+
+def showSession (fuel : Nat) (forms : List Datum) : String :=
+  let (rs, fin) := runSession fuel forms initSt
+  let out := match fin with
+    | some st => st.out.map fun (w, d) => (if w then "w:" else "d:") ++ encDatum d
+    | none => ["?"]
+  " | ".intercalate (rs.map showRes) ++ " || " ++ " ".intercalate out
+
+def handle (cmd : String) (args : List String) : Option String :=
+  match cmd, args with
+  | "eval-session", fuel :: _features :: forms => do
+    let n ← fuel.toNat?
+    let ds ← forms.mapM readForm
+    pure (showSession n ds)
+  | _, _ => none
 
 end Marwood.Driver.Eval
